@@ -5,6 +5,7 @@
    V <repo|tag|digest> <hex>   one component validator
    A <hexalg> <true|false>     configuration: is the hash implementation linked into the harness binary
    F <hexreg> <hexrepo> <hexref>   Reference.String()
+   G <hexreg>                  Reference.ValidateRegistry (Model/NetURL.v)
    O <op> <plain> <hexreg> <hexrepo> <hexinput> <hexdescdigest>   requests of a reference-taking operation *)
 let show_verdict v =
   match v with
@@ -25,6 +26,11 @@ let () =
       if v = "true" then unavailable := List.filter (fun x -> x <> a) !unavailable
       else unavailable := a :: !unavailable;
       Printf.printf "%s AVAIL %s\n" id v
+    | [id; "G"; h] ->
+      let reg = if h = "-" then [] else str_of_hex h in
+      (match go_registry_verdict reg with
+       | Some v -> Printf.printf "%s REG %s\n" id (if v then "true" else "false")
+       | None -> Printf.printf "%s UNJUDGED\n" id)
     | [id; "F"; hr; hp; hf] ->
       let unh h = if h = "-" then [] else str_of_hex h in
       let r = { r_registry = unh hr; r_repository = unh hp; r_reference = unh hf } in
